@@ -99,6 +99,9 @@ type ogServer struct {
 	qconns []quic.Connection
 	seen   map[string]bool
 	acc    atomic.Int32
+
+	streamFn func(net.Conn)       // round 3: serves an accepted (and TLS-wrapped) stream instead of the plain echo
+	udpFn    func(net.PacketConn) // round 3: serves the UDP socket instead of the plain echo
 }
 
 func ogNewServer(tr string) (*ogServer, error) {
@@ -168,7 +171,11 @@ func (s *ogServer) up(mode string) error {
 			return err
 		}
 		s.pc = pc
-		go s.serveUDP(pc)
+		if s.udpFn != nil {
+			go s.udpFn(pc)
+		} else {
+			go s.serveUDP(pc)
+		}
 	case "doq":
 		pc, err := lc.ListenPacket(context.Background(), "udp4", s.addr)
 		if err != nil {
@@ -268,6 +275,10 @@ func (s *ogServer) serveStream(raw net.Conn) {
 		c = tc
 	}
 	s.acc.Add(1)
+	if s.streamFn != nil {
+		s.streamFn(c)
+		return
+	}
 	ogEchoFrames(c)
 }
 
